@@ -15,7 +15,9 @@ def make_case(rng):
     for i in range(n):
         for j in range(n):
             if rng.rand() < (0.35 if i != j else 0.08):
-                edges.append(dict(src=i, dst=j, skip=bool(rng.rand() < 0.35), delay=float(rng.choice([0.0, 0.01, 0.05, 0.2]))))
+                # `jitter`: the connection's delay DISTRIBUTION is non-degenerate while its expected delay is given explicitly (also exactly 0.0)
+                edges.append(dict(src=i, dst=j, skip=bool(rng.rand() < 0.35), delay=float(rng.choice([0.0, 0.0, 0.01, 0.05, 0.2])), jitter=bool(rng.rand() < 0.4),
+                                  name=(f"in{i}" if rng.rand() < 0.3 else None)))
     return dict(n=n, delays=[float(rng.choice([0.0, 0.01, 0.03, 0.1])) for _ in range(n)], edges=edges,
                 change=dict(node=int(rng.randint(0, n)), delay=float(rng.choice([0.0, 0.07, 0.5]))))
 
@@ -66,7 +68,8 @@ def run_case(case):
             continue
         seen.add((e["src"], e["dst"]))
         edges.append(e)
-        nodes[e["dst"]].connect(nodes[e["src"]], skip=e["skip"], blocking=False, delay=e["delay"], delay_dist=StaticDist.create(distrax.Deterministic(loc=e["delay"])))
+        dd = distrax.Normal(loc=e["delay"] + 0.01, scale=0.002) if e.get("jitter") else distrax.Deterministic(loc=e["delay"])
+        nodes[e["dst"]].connect(nodes[e["src"]], skip=e["skip"], blocking=False, delay=e["delay"], delay_dist=StaticDist.create(dd), name=e.get("name"))
     case = dict(case, edges=edges)
 
     def compare(tag, delays):
@@ -87,6 +90,36 @@ def run_case(case):
                     bad.append(f"{tag}: the cycle behind n{j} is not reported as an algebraic loop: {str(ex)[:80]}")
         return n_checks
     checks = compare("initial", case["delays"])
+    # info round trip: nodes rebuilt from their infos (from_info + connect_from_info) have equal infos, connections and phases
+    try:
+        if any(v is None for v in oracle(case, case["delays"])):
+            raise StopIteration        # an algebraic loop: infos cannot be built (the phase is part of them)
+        infos = {nd.name: nd.info for nd in nodes}
+        rebuilt = {k: Nd.from_info(v) for k, v in infos.items()}
+        for nd in rebuilt.values():
+            nd.connect_from_info(infos[nd.name].inputs, rebuilt)
+        for nd in nodes:
+            r2 = rebuilt[nd.name]
+            checks += 1
+            a_in = {k: (c.output_node.name, c.skip, float(c.delay), c.window) for k, c in nd.inputs.items()}
+            b_in = {k: (c.output_node.name, c.skip, float(c.delay), c.window) for k, c in r2.inputs.items()}
+            if a_in != b_in:
+                bad.append(f"round trip: connections of {nd.name} differ: {a_in} vs rebuilt {b_in}")
+                continue
+            try:
+                pa = float(nd.phase)
+            except RecursionError:
+                pa = None
+            try:
+                pb = float(r2.phase)
+            except RecursionError:
+                pb = None
+            if (pa is None) != (pb is None) or (pa is not None and abs(pa - pb) > 1e-9):
+                bad.append(f"round trip: phase of {nd.name} is {pa}, rebuilt node has {pb}")
+    except StopIteration:
+        pass
+    except Exception as ex_rt:
+        bad.append(f"round trip raised {type(ex_rt).__name__}: {str(ex_rt)[:160]}")
     ch = case["change"]
     nodes[ch["node"]].set_delay(delay=ch["delay"], delay_dist=StaticDist.create(distrax.Deterministic(loc=ch["delay"])))
     d2 = list(case["delays"])
